@@ -79,6 +79,9 @@ func (h *hostileRun) tx(call string, bz []byte, kind string) {
 		r.Dead = call + ": " + pm
 	}
 	h.stats[call+"/"+ev["layer"].(string)]++
+	if len(kind) > 6 && kind[:6] == "opcode" && code == 0 {
+		h.stats["Sweep/"+kind]++
+	}
 	h.emit(ev)
 }
 
@@ -398,6 +401,73 @@ func (h *hostileRun) queries() {
 	}
 }
 
+// opcodeSweep executes every byte value 0x00..0xff as an instruction: once as the only instruction of a contract's
+// init code (with eight arguments on the stack: all 0, all 1 or all 2^256-1, by variant), and - for the instructions
+// that read the transaction / block environment - as deployed code reached by a contract call, by a native transfer
+// and by the read-only vm_call query.  Nothing is expected of the outcomes; the application must stay alive and usable.
+func (h *hostileRun) opcodeSweep(variant int) {
+	s := h.s
+	kr := s.R.KR
+	chain := s.Sc.Genesis.ChainID
+	arg := [][]byte{{0x60, 0x00}, {0x60, 0x01}, append([]byte{0x7f}, bytes.Repeat([]byte{0xff}, 32)...)}[variant%3]
+	program := func(op int) []byte {
+		var c []byte
+		for k := 0; k < 8; k++ {
+			c = append(c, arg...)
+		}
+		return append(c, byte(op), 0x00)
+	}
+	deliver := func(from int, to []byte, data []byte, kind string) {
+		s.Last = nil
+		tx := web3.NewTrxContract(kr.Addr(from), to, s.nonce(from), 100000, s.price(), uint256.NewInt(0), data)
+		h.tx("DeliverTx", s.B.Sign(tx, from, chain), kind)
+	}
+	for op := 0; op < 256 && s.R.Dead == ""; op++ {
+		if op%128 == 0 {
+			s.Last = nil
+			s.Begin(allHdr)
+			h.emit(J{"ev": "Sync", "state": h.stateTok()})
+		}
+		deliver(4+op%2, types.ZeroAddress(), program(op), "opcode-init")
+		if op%128 == 127 {
+			h.probe()
+			s.Last = nil
+			s.End()
+			h.emit(J{"ev": "Sync", "state": h.stateTok()})
+		}
+	}
+	if s.R.Dead != "" {
+		return
+	}
+	var addrs [][]byte
+	s.Last = nil
+	s.Begin(allHdr)
+	h.emit(J{"ev": "Sync", "state": h.stateTok()})
+	for op := 0x30; op <= 0x4a && s.R.Dead == ""; op++ {
+		addrs = append(addrs, s.CreateAddr(4))
+		deliver(4, types.ZeroAddress(), Deployer(program(op), 0), "opcode-deploy")
+	}
+	for i, a := range addrs {
+		if s.R.Dead != "" {
+			break
+		}
+		deliver(5, a, []byte{byte(i)}, "opcode-call")
+		s.Last = nil
+		tx := web3.NewTrxTransfer(kr.Addr(5), a, s.nonce(5), 100000, s.price(), uint256.NewInt(uint64(variant)))
+		h.tx("DeliverTx", s.B.Sign(tx, 5, chain), "opcode-transfer")
+		h.query("vm_call", append(append(append([]byte{}, kr.Addr(5)...), a...), byte(i)), 0, "opcode-query")
+	}
+	h.probe()
+	if s.R.Dead == "" {
+		s.Last = nil
+		s.End()
+		h.emit(J{"ev": "Sync", "state": h.stateTok()})
+		for _, a := range addrs {
+			h.query("vm_call", append(append([]byte{}, kr.Addr(5)...), a...), 0, "opcode-query")
+		}
+	}
+}
+
 // RunHostile explores hostile inputs on one application instance for `rounds` blocks.
 func RunHostile(seed int64, rounds int, tmp string, emit func(J)) (map[string]int, string, error) {
 	g, na := Family(int(seed%2)*3, seed) // families 0 and 3
@@ -503,6 +573,9 @@ func RunHostile(seed int64, rounds int, tmp string, emit func(J)) (map[string]in
 			}
 			h.queries()
 		}
+	}
+	if s.R.Dead == "" {
+		h.opcodeSweep(int(seed % 3))
 	}
 	// what was accepted above is settled (voting windows close, proposals are applied) in the following blocks
 	for i := 0; i < 10 && s.R.Dead == ""; i++ {
